@@ -223,6 +223,34 @@ def run(ck: Check) -> None:
                 continue
             break
     ck.count("concurrent-signing-schedules", nsched)
+    # a run that fails part-way (an error raised while some artifact is being signed), then the index is edited (a record hot-fixed), then it is signed: the
+    # result is what signing that content gives — nothing a failed run may have left behind (progress files, caches) finds its way into it
+    from .. import faults
+    pkgdir = os.path.dirname(impl.common.__file__)
+    fnp = os.path.join(d_, "progress", "repodata.json")
+    os.makedirs(os.path.dirname(fnp), exist_ok=True)
+    for trial in range(3):
+        doc1 = {"info": {}, "packages": {"a%d.tar.bz2" % j: {"name": "a", "build_number": j, "trial": trial} for j in range(6)}, "packages.conda": {"c.conda": {"name": "c"}}}
+        with open(fnp, "wb") as f:
+            f.write(gen.oracle_bytes(doc1))
+        with impl.quiet_stdout():
+            _, nev, _ = faults.run_traced(lambda: impl.signing.sign_all_in_repodata(fnp, sk.seed.hex()), fnp, pkgdir)
+        with open(fnp, "wb") as f:
+            f.write(gen.oracle_bytes(doc1))
+        cls = [faults.InjectedFault, faults.InjectedInterrupt, faults.InjectedMemory][trial % 3]
+        with impl.quiet_stdout():
+            exc, _, _ = faults.run_traced(lambda: impl.signing.sign_all_in_repodata(fnp, sk.seed.hex()), fnp, pkgdir, fault_at=int(nev * (0.55 + 0.1 * trial)), fault_cls=cls)
+        doc2 = json.loads(json.dumps(doc1))
+        doc2["packages"]["a1.tar.bz2"]["build_number"] = 99          # hot fix of one record
+        doc2["packages"]["a4.tar.bz2"] = {"name": "replaced"}
+        del doc2["packages"]["a5.tar.bz2"]
+        with open(fnp, "wb") as f:
+            f.write(gen.oracle_bytes(doc2))
+        ck.count("sign-after-failed-run:" + (type(exc).__name__ if exc else "no-fault"))
+        check_signed_file(fnp, doc2, "after-failed-run:%d" % trial)
+        left = sorted(x for x in os.listdir(os.path.dirname(fnp)) if x != "repodata.json")
+        for x in left:
+            os.unlink(os.path.join(os.path.dirname(fnp), x))
     # malformed documents / keys: same outcome class as the model, and an argument error where the structure is not a repodata document
     bad = [Case("signrepofile", [x, gen.key(1).seed.hex()], tag="bad-doc") for x in [{}, {"signatures": {}}, [], ["packages"], "packages", 5, None, {"packages.conda": {}}]]
     bad += [Case("signrepofile", [{"packages": {}}, x], tag="bad-key") for x in ["", "ab", "AB" * 32, "ab" * 31, " " + "ab" * 32, None, 5, gen.key(1).seed]]
